@@ -171,6 +171,40 @@ def search(res, tier, seed, deep=False):
                 if not np.allclose(np.asarray(dd["Obs"].values[0], dtype=float), want_obs) or not np.allclose(np.asarray(dd["Bias"].values[0], dtype=float), want_cm - want_obs):
                     report("days-per-year:%d" % ny, inp, dict(got=np.asarray(dd["Obs"].values[0], dtype=float).reshape(-1)[:3].tolist(), want=want_obs.reshape(-1)[:3].tolist()),
                            "mean days per year beyond the threshold wrong (must not depend on the number of years)")
+                # several metrics in one call, two of them without a name (both "unknown"): one row per metric,
+                # each with its own observational value
+                ms = [ThresholdMetric(threshold_value=9.0, threshold_type="higher"), ThresholdMetric(threshold_value=13.0, threshold_type="higher"), m]
+                dd = E.marginal.calculate_bias_days_metrics(obs_data=[obs, t], metrics=ms, cm=[raw_v, t])
+                res.case(("days-multi", X * Y > 1))
+                for k_, thr_ in enumerate((9.0, 13.0, 12.0)):
+                    wo, wc = (obs > thr_).sum(0) / ny, (raw_v > thr_).sum(0) / ny
+                    if len(dd) != 3 or not np.allclose(np.asarray(dd["Obs"].values[k_], dtype=float), wo) or not np.allclose(np.asarray(dd["Bias"].values[k_], dtype=float), wc - wo):
+                        report("days-per-year-several-metrics", dict(inp, thresholds=[9.0, 13.0, 12.0], names=[x.name for x in ms], row=k_), None,
+                               "with several metrics in one call a row does not hold that metric's own Obs / Bias"); break
+                dm = E.marginal.calculate_marginal_bias(obs=obs, statistics=[], metrics=ms, percentage_or_absolute="absolute", cm=raw_v)
+                for k_, thr_ in enumerate((9.0, 13.0, 12.0)):
+                    if len(dm) != 3 or not np.allclose(np.asarray(dm["Bias"].values[k_], dtype=float), 365 * (raw_v > thr_).mean(0) - 365 * (obs > thr_).mean(0)):
+                        report("marginal-several-metrics", dict(inp, row=k_), None, "with several metrics in one call a row does not hold that metric's own bias"); break
+                # a metric whose threshold depends on the month, validation and future periods with different calendars
+                if ny >= 1:
+                    start_f = r.choice(["2051-01-01", "2050-07-01", "2052-03-15"])
+                    tf2 = times(T, start_f)
+                    from ibicus.utils import month as _month
+                    mo_v, mo_f = _month(t), _month(tf2)
+                    thr_by_month = {mm: 9.0 + 0.5 * mm for mm in range(1, 13)}
+                    mm_ = ThresholdMetric(threshold_value=thr_by_month, threshold_type="higher", threshold_scope="month", name="monthly")
+                    pv = lambda a, mo: np.mean(a > np.array([thr_by_month[int(x)] for x in mo])[:, None, None], axis=0)
+                    for tt_ in ("additive", "multiplicative"):
+                        res.case(("trend-scoped", tt_, start_f))
+                        tr = (lambda f_, v_: f_ - v_) if tt_ == "additive" else (lambda f_, v_: f_ / v_)
+                        df = E.trend.calculate_future_trend_bias(raw_validate=raw_v, raw_future=raw_f, statistics=[], trend_type=tt_, metrics=[mm_], time_validate=t, time_future=tf2, bc=[bc_v, bc_f])
+                        b_, r_ = tr(pv(bc_f, mo_f), pv(bc_v, mo_v)), tr(pv(raw_f, mo_f), pv(raw_v, mo_v))
+                        with np.errstate(all="ignore"):
+                            want = 100 * (b_ - r_) / r_
+                        got = bias_of(df, "monthly")
+                        ok_ = np.isfinite(want)
+                        if not np.allclose(got[ok_], want[ok_]):
+                            report("trend-bias-scoped-metric:" + tt_, dict(inp, future_start=start_f), None, "trend bias of a month-scoped metric: every probability must be taken with its own period's time axis")
                 # trends
                 for tt_ in ("additive", "multiplicative"):
                     res.case(("trend", tt_, X * Y > 1))
